@@ -641,9 +641,9 @@ EXPLANATION = ("Static taint-to-sink analysis with sanitizer facts over everythi
                "must-facts (sizes, loop ranges, octet ranges, declared array lengths, allocation sizes); every assertion whose condition "
                "depends on untrusted data is dominated by an explicit guard, locally or at every call site passing untrusted data; wire "
                "values used as moduli carry a non-zero fact; no null constant reaches a GMP primitive; allocations, stack arrays and resizes "
-               "sized by decoded integers carry an upper bound; variadic hashes never read past their arguments. A closed list of sink "
+               "sized by decoded integers carry an upper bound; variadic hashes never read past their arguments; arithmetic on decoded integers in int / unsigned int stays within 32 bits and unsigned differences are non-negative (no wrap-around feeding a guard, offset or size). A closed list of sink "
                "kinds on the anchored code -- not absence of all memory errors, not termination.")
-ASSUMPTIONS = ["integer wrap-around is not modelled by the linear prover (sink kind S7 is not claimed)", "std::map::operator[] and iterators are not sinks",
+ASSUMPTIONS = ["the linear prover reasons over the integers; S7 shows separately that int/unsigned-int arithmetic and unsigned differences on untrusted data do not wrap (64-bit size_t sums of decoded 32-bit lengths cannot wrap)", "std::map::operator[] and iterators are not sinks",
                "exceptions listed in S2_EXCEPTIONS were triaged by reading", "the second layer (*Parse* functions working on decoded packet contexts) is reported, not claimed"]
 
 
